@@ -45,6 +45,10 @@ var hostile = map[string]string{
 	"bs": `a\b`, "bsq": `a\'b`, "bsend": `ab\`, "nl": "a\nb", "seminl": "a;\nb", "crlf": "a\r\nb", "dollar": "a$$b", "dollartag": "a$t$b",
 	"begin": "BEGIN", "end": "x END", "delim": "DELIMITER //", "go": "GO", "h1": "h1:x", "space": " a b ", "utf8": "ünï→日本",
 	"dashend": "-- end", "semiend": "ab;", "sqsemi": "';", "qmark": "a?b", "pct": "a%sb", "brace": "a{{b}}",
+	// text that looks like an Atlas directive (file formats are comment-line based)
+	"dirdelim": "cfg atlas:delimiter $$", "dirsum": "x atlas:sum ignore", "dirtx": "atlas:txmode none", "dirck": "atlas:checkpoint",
+	// values that start and end with the same quote character but are not a quoted literal
+	"sqwrap": "'it's; x'", "dqwrap": `"a";"b"`, "sqpair": "'a';'b'",
 }
 
 var placements = []string{"table-name", "column-name", "index-name", "fk-name", "check-name", "default", "default-hcl", "default-dq", "default-estring", "column-comment", "table-comment", "check-literal", "enum-value", "index-predicate"}
@@ -589,7 +593,9 @@ func run(c *rt.Ctx) {
 					cases = append(cases, Case{Dialect: d, Scenario: sc, Formatter: f, Indent: ind})
 				}
 			}
-			for _, dl := range []string{"\n\n", "$$", "-- end", "//"} {
+			// (a delimiter must be expressible by the directive grammar — printable ASCII — and must not be a
+			// quote character, which can never end a statement unambiguously: those are not generated)
+			for _, dl := range []string{"\n\n", "$$", "-- end", "//", `\\`, `\g`, `/\/\`, ";;", "GO", "~~~"} {
 				cases = append(cases, Case{Dialect: d, Scenario: sc, Formatter: "atlas", Delim: dl, Indent: "  "})
 			}
 		}
@@ -628,7 +634,7 @@ func run(c *rt.Ctx) {
 		}
 		cs := Case{Dialect: d, Feats: fe, Scenario: []string{"create", "drop", "modify", "unmodify", "alter"}[r.IntN(5)], Formatter: formatters[r.IntN(len(formatters))], Indent: []string{"", "  ", "\t"}[r.IntN(3)]}
 		if cs.Formatter == "atlas" && r.IntN(4) == 0 {
-			cs.Delim = []string{"\n\n", "$$", "-- end"}[r.IntN(3)]
+			cs.Delim = []string{"\n\n", "$$", "-- end", `\\`, `\g`, ";;", "~~~"}[r.IntN(7)]
 		}
 		cases = append(cases, cs)
 	}
